@@ -6,3 +6,4 @@ import MiniconfVerif.Props.C12
 #print axioms MiniconfVerif.C12.getter_error_stops
 #print axioms MiniconfVerif.C12.getter_by_mutability
 #print axioms MiniconfVerif.C12.validator_protocol
+#print axioms MiniconfVerif.C12.source_derive_arms_are_model
